@@ -186,6 +186,7 @@ type Exec struct {
 	labelCount map[string]int
 	instrLabel map[ssa.Instruction]string
 	Inlined  map[string]bool
+	RootCt        *Contract
 	UsedContracts map[string]bool
 	UsedIntrinsics map[string]bool
 	Abstracted map[string]bool
